@@ -277,6 +277,20 @@ fn main() {
                 n += 1;
             }
             let mut extra: Vec<String> = Vec::new();
+            // the placeholder in every representation and magnitude for a few @ forms (conversions of the placeholder at the
+            // public boundary may depend on the build)
+            for form in ["@", "@+1", "@*3", "@%7", "-@", "@/2", "@^2", "max(@,1)", "floor(@)", "2*@-@"] {
+                for ev in api::Ev::ALL {
+                    for ph in props::common::ph_pool(ev) {
+                        extra.push(format!("{}\t{}\t{}", ev.name(), ph.enc(), serde_json::to_string(form).unwrap()));
+                    }
+                    if ev == api::Ev::Num {
+                        for f in [1e18f64, 9007199254740992.0, 4611686018427387904.0, -1e18, 9007199254740994.0, 1e15, 123456789012345680.0] {
+                            extra.push(format!("number\t{}\t{}", api::Val::NF(f).enc(), serde_json::to_string(form).unwrap()));
+                        }
+                    }
+                }
+            }
             // Number::from on the structured boundary set (pseudo-evaluator "numberfrom": bits in the input field)
             {
                 let prop = props::by_id("C18").unwrap();
